@@ -210,6 +210,20 @@ def grundy(reg, g, cap=3_000_000):
     return out
 
 
+def grundy_product_size(reg, g, cap=3_000_000):
+    """Number of members the all-dot-brackets list should have (product of the
+    per-component Grundy-colouring counts) without materialising the product."""
+    total = 1
+    for comp in components(g):
+        if len(comp) == 1:
+            continue
+        sub_reg = [reg[i] for i in comp]
+        idx = {v: k for k, v in enumerate(comp)}
+        sub_g = {idx[v]: {idx[u] for u in g[v]} for v in comp}
+        total *= len(grundy(sub_reg, sub_g, cap))
+    return total
+
+
 def elements_ref(n, pairs):
     """Reference decomposition facts: stems, hairpins."""
     pm = {}
